@@ -131,6 +131,8 @@ def handle (cmd : String) (fs : List String) : String :=
     let sets := if ns.isEmpty then [] else (vs.splitOn ";").map decodeStrList
     let tbl := ns.zip sets
     encodeStr (formatReqs (decodeStrList reqs) (fun n => (tbl.lookup n).getD []))
+  | "depid", [l] => encodeStrList (depIdentifierListValue (decodeStrList l))
+  | "genlistdeps", [l] => encodeStrList (genlistDepends (decodeStrList l))
   | "gnuarg", [isC, rc, err] =>
     let r : CheckResult := ⟨(rc.trimAscii.toString.toInt?).getD 0, [], decodeStr err⟩
     boolStr (gnuHasArguments (isC == "1") r) ++ boolStr (reconfigureVerdict (gnuHasArguments (isC == "1")) id (fun (_ : Unit) => r) ())
